@@ -1,20 +1,31 @@
-"""C07 SHA-1, MD5 and SHA-256 digests are the standard ones for every message (tier 1; compress functions: tier 2)."""
+"""C07 SHA-1, MD5 and SHA-256 digests are the standard ones for every message."""
 from . import hash_rules
-LEVEL = 'other'
+LEVEL = 'proof'
 
 
 def run(prog, rec, tier):
     H = hash_rules.HashRules(prog, rec)
-    for part in ('tables', 'finaliser', 'output', 'drivers', 'buffer', 'buffer_sim'):
-        getattr(H, part)()
-    try:
-        from . import term_rules
-        term_rules.hash_compress(prog, rec, tier)
-    except ImportError:
-        rec.extra['tier2'] = 'not built'
-    rec.extra['explanation'] = ('Initial chaining words and SHA-256 K from first principles; finaliser evaluated for all 64 final-block sizes with a '
-                                'symbolic block count: padded message = msg || 0x80 || 0* || 64-bit length in the right byte order (covers the '
-                                'length accounting and the counter width); digest byte order; string driver for 0..3 blocks x 64 residues plus the '
-                                'inductive step of its block loop; file driver unit sequence; the 64-byte-unit file buffer by an inductive invariant '
-                                '(constructor, prefix block, full unit, partial unit once, refill over five fill classes).')
-    rec.assume('the file buffer keeps its representation (now/total/tail/has_extra); otherwise the buffer rule reports analysis-broken')
+    H.tables()
+    H.finaliser()
+    H.finaliser_bounds()
+    H.output()
+    H.drivers()
+    H.buffer()
+    H.buffer_sim(tier)
+    from . import term_rules
+    term_rules.hash_compress(prog, rec, tier)
+    rec.extra['explanation'] = (
+        'digest(m) = output(fold compress over pad(m)) is decided piecewise. (1) Tier 2: each one-block compress function, interpreted over '
+        'hash-consed 32-bit word terms (AC sums mod 2^32, rotations, truth-table nodes for bitwise functions) with free chaining words and 64 '
+        'free message bytes, yields chaining-word terms identical to those of FIPS 180-4 6.1.2 / 6.2.2 and RFC 1321 3.4 written from the text '
+        '(self-tested against hashlib); it adds exactly 512 to the bit counter. (2) The finaliser for every final-block size 0..63 and a symbolic '
+        'block count produces msg || 0x80 || 0* || 64-bit length (byte-of-linear-form terms: covers counter width and double counting) and stays '
+        'inside its block buffer. (3) The string driver: base (state before the loop from the code), inductive step (loop-carried locals advance by '
+        'learnt constant steps; iteration k compresses the block at 64k) and exit step (r bytes at 64k to the finaliser, then the result) for '
+        'symbolic k, r; plus 256 concrete lengths. (4) The file driver unit sequence. (5) The 64-byte-unit file buffer: per-call inductive '
+        'invariant for the real unit count and exhaustive simulation of the object for a reduced unit count. (6) Initial words, K table, digest byte order.')
+    rec.extra['checker_cmd'] = './check C07'
+    rec.extra['trusted_base'] = ['clang 14 front end', 'wfacts extractor', 'wai interpreter and word/byte term canonicalisers',
+                                 'spec/sha.py (FIPS 180-4, RFC 1321; self-test against hashlib)', 'stdio model of fread']
+    rec.assume('the file buffer code is parametric in its unit-count constant (R07.g uses 2 units); message length < 2^61 bytes')
+    rec.assume('little-endian target')
